@@ -84,6 +84,11 @@ def yhat(ctx, N):
                 preds = [e for e in I.events[lo:] if e["kind"] == "extcall" and e["method"] == "predict"]
                 ok = len(preds) == 1 and preds[0]["args"] and preds[0]["args"][0].term == X.term
                 okp = any(x.op == "mcall" and x.args[1] == "predict" and x.args[2] and x.args[2][0] == X.term for x in tq.walk_all(Yh.term))
+                if not (ok and okp):
+                    # the same prediction written out for a linear model: X @ coef_.T + intercept_ of the fitted regressor
+                    ests = {x.args[0] for x in tq.walk_all(Yh.term) if x.op == "attr" and len(x.args) == 2 and x.args[1] == "coef_"}
+                    nfy = N.nf(Yh.term)
+                    okp = ok = any(nfy == N.nf(T("add", T("matmul", X.term, T("T", T("attr", e_, "coef_"))), T("attr", e_, "intercept_"))) for e_ in ests)
                 ctx.ob("R-YHAT", f"[{cfg}] Yhat = regressor_.predict(X)", bool(ok and okp), f"Yhat = {t[:200]}", site, cfg)
                 fits = [e for e in I.events[lo:] if e["kind"] == "mutate-object" and e["method"] == "fit"]
                 okf = all(e["args"] and e["args"][0].term == X.term for e in fits) and (len(fits) >= 1)
